@@ -118,6 +118,7 @@ func (e *Enc) sliceInstr(fr *Frame, x *ssa.Slice) {
 			// of heap arrays as slices are imprecise: contents unknown.
 			e.note("slice of a heap-resident array in " + shortFnName(fr.fn) + ": identified by the array's address; contents of the view are unconstrained and writes through it are not tracked")
 			sv.Base = e.arrView(pv.A)
+			e.arrViews[sv.Base.S] = arrViewInfo{addr: pv.A, typ: xt.Elem()}
 		}
 		e.setVal(fr, x, sv)
 	default:
@@ -438,4 +439,11 @@ func (e *Enc) arrView(a Addr) T {
 		e.s.Assume(Gt(t, IntLit(0)))
 	}
 	return t
+}
+
+// arrViewInfo remembers which heap-resident array a slice view x[:] aliases, so that callees
+// receiving the view are known to be able to overwrite the array.
+type arrViewInfo struct {
+	addr Addr
+	typ  types.Type
 }
